@@ -151,10 +151,19 @@ func (x *XObject) Count() int {
 
 // Get retrieves the named property
 func (x *XObject) Get(key string) (XValue, bool) {
+	props := x.properties()
+
+	// an exact match always wins
+	if v, exists := props[key]; exists {
+		return v, true
+	}
+
+	// otherwise match case-insensitively, in sorted property order so that the result doesn't depend on map
+	// iteration order when several properties differ only by case
 	key = strings.ToLower(key)
-	for p, v := range x.properties() {
+	for _, p := range x.Properties() {
 		if strings.ToLower(p) == key {
-			return v, true
+			return props[p], true
 		}
 	}
 
